@@ -408,6 +408,17 @@ def build_fn(gen, d):
                 pos = 1
             elif anchor == 'fn-end':
                 pos = len(body) - 1
+            elif anchor == 'fn-tail':
+                # just before the tail expression: after the last ';' that is directly inside the fn body
+                dm = 0
+                pos = 1
+                for ci, ch in enumerate(body_masked):
+                    if ch in '{([':
+                        dm += 1
+                    elif ch in '})]':
+                        dm -= 1
+                    elif ch == ';' and dm == 1:
+                        pos = ci + 1
             elif re.match(r'loop(\d+)-start$', anchor):
                 pos = loops[int(re.match(r'loop(\d+)', anchor).group(1))][2] + 1
             elif re.match(r'loop(\d+)-end$', anchor):
@@ -583,12 +594,33 @@ def build_type(gen, d):
 def build_simple(gen, d):
     src, masked = load(d.file)
     kw = {'const': 'const', 'alias': 'type', 'static': 'static'}[d.kind]
-    it = find_simple(src, masked, kw, d.sel)
+    impl_header = None
+    if '::' in d.sel:
+        ty, nm = d.sel.rsplit('::', 1)
+        found = []
+        for (hdr, o, c) in find_impls(src, masked, ty, None):
+            try:
+                found.append((hdr, find_simple(src, masked, kw, nm, o + 1, c, 0)))
+            except LostAnchor:
+                pass
+        if len(found) != 1:
+            raise LostAnchor('%s: %s found %d times' % (d.file, d.sel, len(found)))
+        impl_header, it = found[0]
+    else:
+        it = find_simple(src, masked, kw, d.sel)
     item_id = len(gen.items)
     gen.items.append({'id': item_id, 'kind': d.kind, 'name': d.sel, 'file': d.file, 'tags': [],
                       'src_lines': [src.count('\n', 0, it.kw) + 1, src.count('\n', 0, it.end) + 1]})
     kw_line_start = src.rfind('\n', 0, it.kw) + 1
-    gen.emit(src[kw_line_start:it.end], item_id)
+    if impl_header:
+        gen.emit(impl_header + ' {', item_id)
+    text = src[kw_line_start:it.end]
+    if 'nopub' in d.opts:
+        # visibility only (Verus restricts what a pub const may mention); no effect on meaning inside one crate
+        text = re.sub(r'^(\s*)pub(\([^)]*\))?\s+', r'\1', text, count=1)
+    gen.emit(text, item_id)
+    if impl_header:
+        gen.emit('}', item_id)
     gen.emit('', None)
 
 
@@ -635,14 +667,31 @@ SCAN = ['assume(', 'admit(', 'external_body', 'assume_specification', 'exec_allo
 
 
 def scan_trusted(text):
-    """mechanical scan for assumption-bearing constructs in the generated file"""
+    """mechanical scan for assumption-bearing constructs in the generated file (one entry per item)"""
     found = []
-    for i, ln in enumerate(text.split('\n')):
-        code = ln.split('//')[0]
+    lines = text.split('\n')
+    i = 0
+    while i < len(lines):
+        code = lines[i].split('//')[0]
+        hit = None
         for pat in SCAN:
             if pat in code:
-                found.append({'line': i + 1, 'construct': pat.rstrip('('), 'text': ln.strip()[:160]})
+                hit = pat.rstrip('(')
                 break
+        if hit:
+            # describe the item the attribute belongs to: first following line that is not an attribute
+            j = i
+            constructs = [hit]
+            while j + 1 < len(lines) and lines[j].split('//')[0].strip().startswith('#['):
+                j += 1
+                for pat in SCAN:
+                    if pat in lines[j].split('//')[0] and pat.rstrip('(') not in constructs and lines[j].strip().startswith('#['):
+                        constructs.append(pat.rstrip('('))
+            desc = lines[j].strip()[:150]
+            found.append({'line': i + 1, 'construct': '+'.join(constructs), 'text': desc})
+            i = j + 1
+        else:
+            i += 1
     return found
 
 
